@@ -787,3 +787,24 @@ func MintLeaf(root *MintedRoot, s LeafSpec) []byte {
 	}
 	return der
 }
+
+// InstallRoots stores a root set made of harness-minted roots (any validity),
+// sealed with the world's storage wrapper when there is one.
+func (w *World) InstallRoots(cur, next *MintedRoot) {
+	mk := func(id string, r *MintedRoot) *types.RootCertificate {
+		pkcs8, err := x509.MarshalPKCS8PrivateKey(r.Priv)
+		if err != nil {
+			panic(err)
+		}
+		return &types.RootCertificate{Id: id, PublicKeyPkix: r.Pkix, PrivateKeyPkcs8: pkcs8, PrivateKeyType: types.KEYTYPE_ED25519,
+			CertificateDer: r.Cert.Raw, NotBefore: TS(r.Cert.NotBefore), NotAfter: TS(r.Cert.NotAfter)}
+	}
+	rc := &types.RootCertificates{Id: nodeenrollment.RootsMessageId, Current: mk("current", cur), Next: mk("next", next)}
+	if w.Backend == StoreOnce {
+		_ = w.Inner.Remove(w.Ctx, &types.RootCertificates{Id: nodeenrollment.RootsMessageId})
+	}
+	if err := rc.Store(w.Ctx, w.Inner, w.O()...); err != nil {
+		panic(err)
+	}
+	w.Rec.Track("RootCertificates", nodeenrollment.RootsMessageId)
+}
